@@ -8,6 +8,8 @@ import (
 	"bufio"
 	"bytes"
 	"fmt"
+	"golang.org/x/text/collate"
+	"golang.org/x/text/language"
 	"math/rand"
 	"reflect"
 	"runtime"
@@ -65,7 +67,7 @@ func newCallerBuf(r *rand.Rand, key []byte, style int) *callerBuf {
 	return b
 }
 
-func (b *callerBuf) key() []byte { return b.arr[b.off : b.off+b.n : b.off+b.capLimit] }
+func (b *callerBuf) key() []byte  { return b.arr[b.off : b.off+b.n : b.off+b.capLimit] }
 func (b *callerBuf) intact() bool { return bytes.Equal(b.arr, b.snapshot) }
 func (b *callerBuf) scribble() {
 	for i := range b.arr {
@@ -672,6 +674,16 @@ func runRaceMode(seed int64, n int, tr *transcript) {
 
 // ---- C18 ---------------------------------------------------------------------------------------
 
+// exactCodec hands the tree keys whose backing array is exactly as long as the key (no spare capacity behind it)
+type exactCodec struct{ schemaCodec }
+
+func (c exactCodec) Transform(k string) ([]byte, []byte) {
+	b, _ := c.schemaCodec.Transform(k)
+	out := make([]byte, len(b))
+	copy(out, b)
+	return out, out
+}
+
 type bigVal struct {
 	a [16]uint64
 }
@@ -821,6 +833,24 @@ func gcForValue[V any](tr *transcript, vname string, mk func(i int) V, r *rand.R
 			rkeys[i] = []rune(k)
 		}
 		gcCheck(tr, "coll-runes/"+vname, art.NewCollationSortedTree[[]rune, V](), rkeys, mk, r, func(k []rune) string { return hexLit([]byte(string(k))) })
+		// word families: long words first, then ever shorter beginnings of them, so that a key ends inside a compressed
+		// path that was built from longer keys (every length, hence every distance from the end of the key's allocation)
+		var fam []string
+		for j := 0; j < 6; j++ {
+			base := string(randBytes(r, []byte("abcdefghijklmnopqrstuvwxyz"), 18+3*j, 18+3*j))
+			fam = append(fam, base+"izations", base+"ization", base+"s", base)
+			for cut := 1; cut < 12; cut++ {
+				fam = append(fam, base[:len(base)-cut])
+			}
+		}
+		gcCheck(tr, "coll-loose-families/"+vname, art.NewCollationSortedTree[string, V](art.WithCollator[string, V](collate.New(language.English, collate.Loose))),
+			fam, mk, r, func(k string) string { return hexLit([]byte(k)) })
+		gcCheck(tr, "alpha-families/"+vname, art.NewAlphaSortedTree[string, V](), fam, mk, r, func(k string) string { return hexLit([]byte(k)) })
+		tuples := make([]string, len(fam))
+		for i, k := range fam {
+			tuples[i] = bitsLit(uint64(i%3), 16) + "," + hexLit([]byte(k)) // the string field comes last in a schema
+		}
+		gcCheck(tr, "compound-exact-families/"+vname, art.NewCompoundTree[string, V](exactCodec{schemaCodec{[]string{"u16", "s"}}}), tuples, mk, r, func(k string) string { return k })
 	}
 	// numeric keys
 	{
